@@ -52,6 +52,13 @@ def named_schedules(seed):
     add("reader-between-check-and-wait-download", "tcp",
         [["w", 10], ["rall"]], [["wait", "parked"], ["w", 5000], ["close"], ["sleep", 50], ["sig", "go"]],
         gates=[{"point": "read.wait", "ep": "C", "s": 0, "nth": 1, "until": "go", "reach": "parked"}])
+    # TCP: two sessions share one connection whose server-to-client direction is slow (6 s).  X is closed locally and its underlay has
+    # forgotten it (5 s clean-up) when the peer's close response for X arrives; that stale message must not cost Y, whose data and
+    # graceful close are in flight behind it, the end of its stream
+    out.append({"id": "named/tcp/stale-close-of-a-forgotten-sibling", "transport": "tcp", "mtu": 1400, "seed": seed, "multiplex": 100,
+                "s2clat": 6000, "limit": 900, "notx": 2,
+                "sessions": [{"c": [["w", 10], ["sleep", 50], ["close"]], "s": [["rall"]]},
+                             {"c": [["w", 1], ["rall", 65536]], "s": [["rn", 1], ["sleep", 300], ["w", 20000], ["sleep", 100], ["w", 30000], ["close"]]}]})
     # TCP: backlog larger than recvQueue + recvChan when the close request arrives
     # (recvQueue 4096 + the segment held by the input loop + recvChan 256, +1 taken by the harness's first read)
     for nw in (4352, 4353, 4354, 4355, 6000):
